@@ -11,26 +11,52 @@
 (* each), so that every expiry boundary of what was added is observed.     *)
 (* Every reduce carries what the abstract window reports: the non-empty    *)
 (* visible buckets (oldest first) and the totals.                          *)
+(*                                                                         *)
+(* Overlap dimension.  operation = overlap(e, gate, v): a reduction is     *)
+(* started; while its callback is held (after it has read `gate` buckets)  *)
+(* the clock moves on by e ticks and another goroutine issues add(v); then *)
+(* the callback is let go.  Reduce is ONE atomic action of                 *)
+(* RollingWindow.tla, so between its invocation and its return it takes    *)
+(* effect at one point of the environment's sequence                       *)
+(*       <reduce invoked> ; Advance(e) ; Add(v) ; <reduce returns>         *)
+(* i.e. it reports the window of one of three moments (`moments`): before  *)
+(* the advance, after the advance, after the add - never a mixture.  When  *)
+(* the reduction visits fewer than `gate` buckets nothing overlaps and it  *)
+(* must report `seq` (= the first moment).  Afterwards the add is part of  *)
+(* the state (`after`, and everything that follows, including the walk-    *)
+(* out).  A behaviour ends after its OvMax-th overlap.                     *)
 (***************************************************************************)
 EXTENDS RollingWindow, Json
 
-CONSTANTS MaxOps,   \* operations per behaviour
-          Burst     \* set of n offered to addn
+CONSTANTS MaxOps,      \* operations per behaviour
+          Burst,       \* set of n offered to addn
+          OvMax,       \* overlaps per behaviour (0: none are generated)
+          OvAdvances,  \* set of e: ticks by which the clock moves while the reduction is held
+          OvGates,     \* set of gate: buckets read by the callback before it is held (0: held before the first)
+          OvVals       \* set of values added by the overlapping goroutine
 
-VARIABLES hist, nops, fin
+VARIABLES hist, nops, fin, novl
 
-gvars == <<vars, hist, nops, fin>>
+gvars == <<vars, hist, nops, fin, novl>>
 
 Report(b) == [buckets |-> Seen(b), sum |-> TotalSum(b), count |-> TotalCount(b)]
 
-GInit == Init /\ hist = <<>> /\ nops = 0 /\ fin = FALSE
+\* the reports of an atomic Reduce placed before Advance(e), between Advance(e) and Add(v), after Add(v);
+\* s = bucket boundaries passed by the advance
+Moments(b, s, v) == <<Report(b), Report(Shift(b, s)), Report(AddTo(Shift(b, s), v, 1))>>
+
+OvOpen == OvMax = 0 \/ novl < OvMax
+\* when overlaps are generated a behaviour holds at least one: its last operation is an overlap if none came before
+OvDue == OvMax > 0 /\ novl = 0 /\ nops + 1 = MaxOps
+
+GInit == Init /\ hist = <<>> /\ nops = 0 /\ fin = FALSE /\ novl = 0
 
 Macro(d, o) ==
   LET b1 == Shift(bk, Cur(now + d) - Cur(now)) IN
-  /\ ~fin /\ nops < MaxOps
+  /\ ~fin /\ nops < MaxOps /\ OvOpen /\ ~OvDue
   /\ nops' = nops + 1
   /\ now' = now + d
-  /\ UNCHANGED <<fin, log>>
+  /\ UNCHANGED <<fin, log, novl>>
   /\ CASE o.op = "add" ->
             /\ bk' = AddTo(b1, o.v, 1)
             /\ out' = [op |-> "add", d |-> d, v |-> o.v]
@@ -47,16 +73,33 @@ Ops ==
   \cup {[op |-> "addn", v |-> v, n |-> n] : v \in {CHOOSE x \in Vals : TRUE}, n \in Burst}
   \cup {[op |-> "reduce"]}
 
+Overlap(d, e, g, v) ==
+  LET b1 == Shift(bk, Cur(now + d) - Cur(now))
+      s == Cur(now + d + e) - Cur(now + d)
+      b2 == AddTo(Shift(b1, s), v, 1) IN
+  /\ ~fin /\ nops < MaxOps /\ novl < OvMax
+  /\ nops' = nops + 1
+  /\ novl' = novl + 1
+  /\ now' = now + d + e
+  /\ bk' = b2
+  /\ out' = [op |-> "overlap", d |-> d, e |-> e, s |-> s, gate |-> g, v |-> v,
+             seq |-> Report(b1), moments |-> Moments(b1, s, v), after |-> Report(b2)]
+  /\ hist' = Append(hist, out')
+  /\ UNCHANGED <<fin, log>>
+
 Finish ==
-  /\ ~fin /\ nops = MaxOps
+  /\ ~fin /\ (nops = MaxOps \/ ~OvOpen)
   /\ fin' = TRUE
   /\ now' = now + (Size + 1) * Q
   /\ bk' = Shift(bk, Size + 1)
   /\ out' = [op |-> "finish", step |-> Q, walk |-> [i \in 1..(Size + 2) |-> Report(Shift(bk, i - 1))]]
   /\ hist' = Append(hist, out')
-  /\ UNCHANGED <<nops, log>>
+  /\ UNCHANGED <<nops, log, novl>>
 
-GNext == (\E d \in Advances, o \in Ops : Macro(d, o)) \/ Finish
+GNext ==
+  \/ \E d \in Advances, o \in Ops : Macro(d, o)
+  \/ \E d \in Advances, e \in OvAdvances, g \in OvGates, v \in OvVals : Overlap(d, e, g, v)
+  \/ Finish
 
 GSpec == GInit /\ [][GNext]_gvars
 
